@@ -66,6 +66,11 @@ fn parse_case(lines: &[String]) -> Option<Case> {
 }
 
 fn setup(c: &Case) -> (Dispatch, Vec<tracing_capture::SharedStorage>, Vec<Option<(tracing_core::span::Id, usize)>>) {
+    let (d, s, h, _) = setup_logged(c);
+    (d, s, h)
+}
+
+fn setup_logged(c: &Case) -> (Dispatch, Vec<tracing_capture::SharedStorage>, Vec<Option<(tracing_core::span::Id, usize)>>, Vec<program::FeCall>) {
     let cfg = Config { layers: vec![c.filter.clone()], global: None, pass: vec![], per_layer: false, nested: false };
     let (dispatch, storages) = cfg.build();
     let mut main = Runner::new(&c.sites);
@@ -74,12 +79,15 @@ fn setup(c: &Case) -> (Dispatch, Vec<tracing_capture::SharedStorage>, Vec<Option
             main.step(&dispatch, &POp::New { k: c.shared.1, parent: PParent::Root, vals: vec![] });
         }
     });
-    (dispatch, storages, main.handles)
+    let log = main.log.clone();
+    (dispatch, storages, main.handles, log)
 }
 
 fn run_forced(c: &Case, sched: &[usize]) -> Vec<String> {
-    let (dispatch, storages, shared) = setup(c);
-    let (done_tx, done_rx) = channel::<usize>();
+    let (dispatch, storages, shared, main_log) = setup_logged(c);
+    // the interleaved call log: what the threads' front ends did, in schedule order
+    let mut tagged: Vec<(usize, program::FeCall)> = main_log.into_iter().map(|c| (99, c)).collect();
+    let (done_tx, done_rx) = channel::<(usize, Vec<program::FeCall>)>();
     let mut go: Vec<(usize, Tx<()>)> = vec![];
     let mut handles = vec![];
     for (tid, ops) in &c.work {
@@ -94,8 +102,9 @@ fn run_forced(c: &Case, sched: &[usize]) -> Vec<String> {
                     if rx.recv().is_err() {
                         return;
                     }
+                    let before = runner.log.len();
                     runner.step(&dispatch, op);
-                    let _ = done_tx.send(tid);
+                    let _ = done_tx.send((tid, runner.log[before..].to_vec()));
                 }
                 // stay alive until every thread is done: the Registry's per-thread span stacks
                 // live in recycled `thread_local` slots (see `run_free`)
@@ -109,7 +118,8 @@ fn run_forced(c: &Case, sched: &[usize]) -> Vec<String> {
             continue;
         }
         go.iter().find(|g| g.0 == *t).unwrap().1.send(()).unwrap();
-        done_rx.recv().unwrap();
+        let (tid, calls) = done_rx.recv().unwrap();
+        tagged.extend(calls.into_iter().map(|c| (tid, c)));
         *left.get_mut(t).unwrap() -= 1;
     }
     drop(go);
@@ -120,6 +130,13 @@ fn run_forced(c: &Case, sched: &[usize]) -> Vec<String> {
     let mut fails = vec![];
     let lock = storages[0].lock();
     dump(&lock, &c.sites, "L0 ", &mut out, &mut fails);
+    // C19: the storage against the independent reference interpreter run over the interleaved log
+    // (per-thread stacks; not the implementation's own single-threaded run)
+    let want = super::capture::expected_dump_tagged(&c.sites, &c.filter, &tagged, "L0 ");
+    if want != out {
+        let k = want.iter().zip(&out).position(|(a, b)| a != b).unwrap_or(want.len().min(out.len()));
+        fails.push(format!("C19 under this schedule the storage differs from what the threads did: captured `{}`, expected `{}`", out.get(k).map_or("<end>", String::as_str), want.get(k).map_or("<end>", String::as_str)));
+    }
     out.extend(fails.into_iter().map(|f| format!("FAIL {f}")));
     out
 }
@@ -336,6 +353,30 @@ fn run_storm(c: &Case, n: usize, m: usize, out: &mut Outcome) {
         }
     });
     out.fails.extend(bad.into_inner().unwrap());
+    // second phase: every thread enters and exits the shared span `m` times; no count may be lost
+    thread::scope(|scope| {
+        for _ in 0..n {
+            let (dispatch, span, barrier) = (dispatch.clone(), span.clone(), &barrier);
+            scope.spawn(move || {
+                barrier.wait();
+                dispatcher::with_default(&dispatch, || {
+                    for _ in 0..m {
+                        let _guard = span.enter();
+                    }
+                });
+                barrier.wait();
+            });
+        }
+    });
+    {
+        let lock = storage.lock();
+        if let Some(s) = lock.all_spans().next() {
+            let st = s.stats();
+            if st.entered != n * m || st.exited != n * m || st.is_closed {
+                out.fails.push(format!("C19 storm: {n} threads entered and exited the shared span {m} times each, captured stats are {st:?}"));
+            }
+        }
+    }
     let lock = storage.lock();
     if let Some(s) = lock.all_spans().next() {
         for tid in 0..n {
@@ -363,7 +404,7 @@ impl Suite for CapConc {
     fn gen(&self, rng: &mut Rng, tier: Tier, idx: usize, _focus: &str) -> Vec<String> {
         if idx % 10 == 9 {
             let (n, m) = (rng.range(2, 8), if tier == Tier::Quick { 2000 } else { 20000 });
-            return vec!["lfilter 0 all".into(), format!("storm {n} {m}")];
+            return vec!["lfilter 0 -".into(), format!("storm {n} {m}")];
         }
         let forced = idx % 2 == 0;
         let n_threads = if forced { rng.range(2, 3) } else { rng.range(2, 16) };
